@@ -28,8 +28,14 @@ for m in idx:
     other=re.search(r'other oracles (\{.*?\})',summ[0]).group(1) if summ else ''
     print("%-40s %s exit=%d cases=%s %s other=%s"%(m['name'],m['property'],p.returncode,cases,(viol[0].strip()[:110] if viol else ''),other[:150]))
     sys.stdout.flush()
+    res.append((m['name'],m['property'],'caught' if p.returncode==1 else 'MISSED',cases,(viol[0].strip()[:100] if viol else '')))
     subprocess.check_call(["git","-C","/repo","checkout","--","."])
 shutil.rmtree('/var/tmp/dv-mut-home',ignore_errors=True)
+if not flt:
+    with open('/verif/mutants/RESULTS.md','w') as f:
+        f.write("# Hand-written sensitivity mutants vs. the quick tier of the property's own check\n\n| mutant | property | result | cases until detection | first violation |\n|---|---|---|---|---|\n")
+        for r in res: f.write("| %s | %s | %s | %s | %s |\n"%r)
+        f.write("\n%d of %d caught by the quick tier. c04_claim_never_poll (revert of fix fedbe7a) is found by the sched_fuzz stage of `./check C04 thorough` (about 2 minutes).\n"%(sum(1 for r in res if r[2]=='caught'),len(res)))
 PY
 git -C /repo checkout -- .
 cargo build --release --offline -p dv 2>&1 | grep -E "^error" | head -3
